@@ -25,4 +25,9 @@ for p in sorted(glob.glob("/verif/harmless/*.diff")):
     print(name, "silent" if not alarms else "FALSE ALARMS %s" % sorted(alarms))
     for t, ls in alarms.items():
         for l in ls[:2]: print("     ", l[:260])
-json.dump(out, open("/verif/harmless/last_run.json", "w"), indent=1)
+try:
+    prev = json.load(open("/verif/harmless/last_run.json"))
+except Exception:
+    prev = {}
+prev.update(out)           # a partial run refreshes its own entries only
+json.dump(prev, open("/verif/harmless/last_run.json", "w"), indent=1, sort_keys=True)
